@@ -66,6 +66,7 @@ GhostInit ==
     t        |-> 0,            \* time of the previous line (ms)
     passes   |-> 0,            \* completed periodic passes since the last stimulus
     inPass   |-> FALSE,
+    passFresh|-> FALSE,        \* the running pass began after the last stimulus
     passClean|-> FALSE,
     owner    |-> <<>>,         \* pid -> lower-cased watcher name ("" for a worker's child)
     released |-> {},           \* pids released by rm nostop
@@ -90,9 +91,11 @@ GhostInit ==
     bootDone |-> FALSE, booted |-> FALSE,
     lastSpawn|-> [w |-> "", t |-> -1, prio |-> 0, first |-> -1],
     sigTargets |-> {},
+    par0     |-> <<>>,         \* pid -> the parent it was forked by (0 for the daemon's own children)
     lastStatus |-> <<>>,       \* pid -> result of the last status() read ("" none)
     pruned   |-> {},           \* pids dropped from tracking right after a dead status read, never reaped (D4)
     detached |-> {},           \* pids forgotten after a failing after_spawn hook (D3)
+    vetoRaise |-> {},          \* pids whose before_signal hook RAISED with its ignore flag off (D11)
     dsigBusy |-> FALSE,        \* a termination signal arrived while an exclusive operation held the slot (D6)         \* pids signalled while handling the current signal/kill request
     stepBad  |-> {} ]
 
@@ -163,7 +166,7 @@ Upd(g, o, ln, o2) ==
                                childpid |-> ln.q.childpid, G |-> ln.q.G, nostop |-> ln.q.nostop,
                                graceful |-> ln.q.graceful, cast |-> ln.q.cast, waiting |-> ln.q.waiting,
                                busy |-> o2.slot # ""]
-                ELSE IF ln.cb = 0 THEN NoCtx ELSE g.ctx
+                ELSE IF ln.cb = 0 \/ ln.k = "reqend" THEN NoCtx ELSE g.ctx
       reqs1  == IF isReq /\ ~ln.q.raw
                 THEN Append(g.reqs, [cid |-> ln.x, mid |-> ln.q.mid, cast |-> ln.q.cast, n |-> 0, t0 |-> ln.t,
                                      cmd |-> ln.q.cmd, waiting |-> ln.q.waiting])
@@ -198,7 +201,11 @@ Upd(g, o, ln, o2) ==
                   THEN g.envDied \cup {ln.p} ELSE g.envDied
       \* --- terminations
       lastSig1 == LET s == Grow(g.lastSig, n2, <<0, -1>>) IN
-                  IF ln.k = "signal" THEN [s EXCEPT ![ln.p] = <<ln.a, ln.t>>] ELSE s
+                  IF ln.k = "signal" THEN [s EXCEPT ![ln.p] = <<ln.a, ln.t>>]
+                  \* the kill event marks the start of a termination even when a before_signal hook vetoed the signal
+                  ELSE IF isEv /\ ln.x = "kill" /\ ln.p \in 1..Len(s) /\ s[ln.p][2] # ln.t
+                       THEN [s EXCEPT ![ln.p] = <<0, ln.t>>]
+                  ELSE s
       flips  == StopFlips(o, o2)
       ends   == StopEnds(o, o2)
       term0  == Grow(g.term, n2, NoTerm)
@@ -223,7 +230,9 @@ Upd(g, o, ln, o2) ==
       g1 == [g EXCEPT
                !.cfg = IF ln.k = "init" THEN ln.cfg ELSE @,
                !.t = ln.t,
-               !.passes = IF stim THEN 0 ELSE IF PassEnd(o, o2) /\ @ < 3 THEN @ + 1 ELSE @,     \* (saturates)
+               \* completed passes that BEGAN after the last stimulus (saturates at 3)
+               !.passes = IF stim THEN 0 ELSE IF PassEnd(o, o2) /\ g.passFresh /\ @ < 3 THEN @ + 1 ELSE @,
+               !.passFresh = IF stim THEN FALSE ELSE IF PassStart(o, o2) THEN TRUE ELSE @,
                !.inPass = o2.slot = "manage_watchers",
                !.passClean = IF PassStart(o, o2) THEN CleanForPass(o) /\ ~stim
                              ELSE IF stim \/ (ln.k = "req" /\ ln.q.cmd \in {"kill", "signal"}) THEN FALSE ELSE @,
@@ -263,13 +272,18 @@ Upd(g, o, ln, o2) ==
                              THEN [w |-> ln.x, t |-> ln.t, prio |-> CfgW(g, ln.x).prio,
                                    first |-> IF @.w = ln.x THEN @.first ELSE ln.t]
                              ELSE IF acq THEN [w |-> "", t |-> -1, prio |-> 0, first |-> -1] ELSE @,
+               !.par0 = LET t == Grow(g.par0, n2, 0) IN IF ln.k = "fork" THEN [t EXCEPT ![ln.p] = ln.a] ELSE t,
                !.lastStatus = LET t == Grow(g.lastStatus, n2, "") IN
                               IF ln.k = "status" THEN [t EXCEPT ![ln.p] = ln.r] ELSE t,
                !.pruned = LET left == { p \in AllTracked(o) : p \notin AllTracked(o2) /\ p \notin g.reaped
-                                          /\ p \in 1..Len(g.lastStatus) /\ g.lastStatus[p] \in {"zombie", "gone"} }
+                                          /\ \/ (p \in 1..Len(g.lastStatus) /\ g.lastStatus[p] \in {"zombie", "gone"})
+                                             \/ p \in g.killed }     \* (surplus / expired worker popped after its kill)
                           IN (@ \cup left) \ (IF isEv /\ ln.x = "reap" THEN {ln.p} ELSE {}),
                !.detached = IF ln.k = "hook" /\ ln.x = "after_spawn" /\ ~Effective(g, ln.w, "after_spawn", ln.r)
                             THEN @ \cup {ln.p} ELSE @,
+               !.vetoRaise = IF ln.k = "hook" /\ ln.x = "before_signal"
+                             THEN (IF ln.r = "raise" /\ ~HookCfg(g, ln.w, "before_signal").ig THEN @ \cup {ln.p} ELSE @ \ {ln.p})
+                             ELSE @,
                !.dsigBusy = @ \/ (ln.k = "dsig" /\ ln.a \in {15, 2, 3} /\ o2.slot # ""),
                !.sigTargets = IF isReq THEN {} ELSE IF ln.k \in SigKinds THEN @ \cup {ln.p} ELSE @ ]
   IN g1
@@ -329,10 +343,13 @@ C03_notearly(g, ln) ==
       /\ g.term[ln.p].sig # SIGKILL /\ ~(g.ctx.on /\ g.ctx.cmd = "signal"))
      => ln.t + 1 >= g.term[ln.p].t0 + g.term[ln.p].G
 C03_notdead(g, ln) ==
-   (ln.k = "signal" /\ ln.a = SIGKILL /\ ln.p \in 1..Len(g.term) /\ g.term[ln.p].open
+   (ln.k = "signal" /\ ln.a = SIGKILL /\ ln.p \in 1..Len(g.term) /\ g.term[ln.p].open /\ ~g.blocked
       /\ ~(g.ctx.on /\ g.ctx.cmd = "signal"))
-     => /\ ln.p \notin g.polledDead
-        /\ (ln.p \in 1..Len(g.diedAt) /\ g.diedAt[ln.p] # -1 => g.diedAt[ln.p] + 101 >= ln.t)
+     \* "exited in time" = exited during this termination's grace period (one poll of slack); a worker that
+     \* was already dead when the termination began, or a zero grace period, is not that case
+     => /\ (ln.p \in g.polledDead => g.term[ln.p].G = 0)
+        /\ (ln.p \in 1..Len(g.diedAt) /\ g.diedAt[ln.p] # -1 /\ g.diedAt[ln.p] >= g.term[ln.p].t0
+              /\ g.term[ln.p].G > 0 => g.diedAt[ln.p] + 101 >= ln.t)
 C03_prompt(g, o, ln) ==
    (ln.k = "tick" /\ ~g.blocked) =>
       \A p \in 1..Len(g.term) :
@@ -382,7 +399,8 @@ C06_reply(g, ln) ==
       /\ ln.b = 1
 C06_status(ln) == ln.k = "reply" => ln.r \in {"ok", "error"}
 C06_all(g, ln) ==
-   ln.k = "end" => \A i \in 1..Len(g.reqs) : g.reqs[i].n = (IF g.reqs[i].cast THEN 0 ELSE 1)
+   \* (requests still pending when the daemon exits are outside: after an accepted quit nobody serves)
+   (ln.k = "end" /\ "ctrl" \notin g.closed) => \A i \in 1..Len(g.reqs) : g.reqs[i].n = (IF g.reqs[i].cast THEN 0 ELSE 1)
 
 \* ---------------- C09
 C09_spawn(g, ln) == (ln.k = "ev" /\ ln.x = "spawn") => ln.p \notin g.spawned /\ ln.p \notin g.reaped
@@ -452,10 +470,14 @@ C15_addrm(g, o, ln, o2) ==
          => g.op.lname \notin SeqToSet(o2.wn) /\ g.op.lname \notin SeqToSet(o2.wll)
 
 \* ---------------- C18 (confinement of signal / kill requests)
+RECURSIVE Anc(_, _, _)
+Anc(g, p, n) == IF n = 0 \/ p \notin 1..Len(g.par0) \/ g.par0[p] = 0 THEN {} ELSE {g.par0[p]} \cup Anc(g, g.par0[p], n - 1)
 C18_confine(g, o, ln) ==
    (ln.k \in SigKinds /\ g.ctx.on /\ g.ctx.cmd \in {"signal", "kill"}) =>
       \E i \in WIdx(o) : /\ o.w[i].ln = g.ctx.lname
-                         /\ ln.p \in Desc(o, Pids(o.w[i]))
+                         /\ \/ ln.p \in Desc(o, Pids(o.w[i]))
+                            \* a child listed a moment ago whose parent (a worker of this watcher) has just died
+                            \/ \E a \in Anc(g, ln.p, 8) : OwnerOf(g, a) = g.ctx.lname
 
 \* ---------------- C19
 C19_order(g, o, ln) ==
@@ -538,6 +560,28 @@ KF(c, g, o, ln, o2, g2) ==
          IF ln.p \in 1..Len(g.term) /\ g.term[ln.p].open THEN "D1"
          ELSE IF g.op.cmd = "start" /\ g.op.slot \in {"watcher_start", "arbiter_start_watchers"} THEN "D2"
          ELSE ""
+    [] c = "C04_count" ->
+         IF \A j \in 1..Len(ln.pb.per) :
+               LET mine == Mine(g2, o2, ln.pb.per[j].n)
+                   lost == mine \ SeqToSet(ln.pb.per[j].stats) IN
+               /\ SeqToSet(ln.pb.per[j].stats) \subseteq mine
+               /\ lost \subseteq (g2.detached \ AllTracked(o2))
+               /\ ln.pb.per[j].np = Cardinality(mine \ lost)
+         THEN "D3" ELSE ""
+    [] c = "C04_list" ->
+         IF \A j \in 1..Len(ln.pb.per) :
+               /\ SeqToSet(ln.pb.per[j].pids) \subseteq Mine(g2, o2, ln.pb.per[j].n)
+               /\ (Mine(g2, o2, ln.pb.per[j].n) \ SeqToSet(ln.pb.per[j].pids)) \subseteq (g2.detached \ AllTracked(o2))
+         THEN "D3" ELSE ""
+    [] c = "C03_prompt" ->
+         IF \A p \in 1..Len(g.term) :
+               (g.term[p].open /\ ~g.term[p].killed /\ KSt(o, p) = "run" /\ g.term[p].sig # SIGKILL
+                  /\ g.t > g.term[p].t0 + g.term[p].G + 101) => p \in g.detached
+         THEN "D3" ELSE ""
+    [] c = "C14_siggate" -> IF ln.p \in g.vetoRaise THEN "D11" ELSE ""
+    [] c = "C01_fresh" ->
+         \* a replacement started by this very operation died before it completed
+         IF \E p \in 1..NK(o2) : p > g.op.mark /\ OwnerOf(g2, p) # "" /\ KSt(o2, p) # "run" THEN "D14" ELSE ""
     [] c = "C06_status" -> IF g.ctx.on /\ g.ctx.cmd = "status" /\ g.ctx.hasname THEN "STATUS" ELSE ""
     [] c = "C08_done" -> IF g2.dsigBusy THEN "D6" ELSE ""
     [] OTHER -> ""
